@@ -183,6 +183,7 @@ func init() {
 			x.clockFrozen = true
 			return nil
 		},
+		"vsymbolic": func(x *X, fn *ssa.Function, a []Value) Value { return x.B.True() },
 		"vrandPush": func(x *X, fn *ssa.Function, a []Value) Value { x.ghostAppend("randq", a[0]); return nil },
 		"vparam": func(x *X, fn *ssa.Function, a []Value) Value {
 			if v, ok := x.Params[x.strArg(a[0])]; ok {
@@ -377,6 +378,16 @@ func init() {
 		"math/rand.Read":   func(x *X, fn *ssa.Function, a []Value) Value { return x.randRead(a[0].(Slice)) },
 		ModulePath + "/pkg/rand.Read": func(x *X, fn *ssa.Function, a []Value) Value { return x.randRead(a[0].(Slice)) },
 
+		ModulePath + "/protocol/network/hash.RandN32": func(x *X, fn *ssa.Function, a []Value) Value {
+			// arbitrary words; not registered as named inputs (natively they are random as well)
+			n := int(x.concretize(a[0].(*T), "RandN32 n"))
+			arr := x.newArray(types.Typ[types.Uint32], n)
+			for i := 0; i < n; i++ {
+				arr.E[i].(*ScalarLoc).V = x.freshVar("randn32", 32)
+			}
+			ln := x.c64(uint64(n))
+			return Slice{Arr: arr, Off: x.c64(0), Len: ln, Cap: ln}
+		},
 		"(*" + ModulePath + "/protocol.StatCounter).Increment":   nop,
 		"(*" + ModulePath + "/protocol.StatCounter).IncrementBy": nop,
 	}
